@@ -270,6 +270,11 @@ def run(rng: Rng, tier: str, index: int) -> RunResult:
             continue
         attack("pair", "%s{%s} + %s{%s}" % (k1, d1, k2, d2), out)
 
+    if len(cell["rcpts"]) > 1:
+        for kind, desc, fn in F.splice_faults(A, B, "sibling"):
+            out = F.apply(A, [fn])
+            if out and out != A and out != B:
+                attack(kind, desc, out)
     if len(cell["rcpts"]) == 1:
         for kind, desc, fn in F.splice_faults(A, B, "sibling"):
             out = F.apply(A, [fn])
